@@ -659,6 +659,12 @@ def fam_c15(tier, seed):
     b1 = list(sk.bs_family(1, 1, [0, 30], need_sell=False))
     for l in sk.with_events(b1, ("X", "U", "C", "M", "D"), [0, 1, 30], ratios=("sym",), max_events=1):
         sks.append(mk(i, "p", l, variant="panic", mode="QPFZ", wit=WIT)); i += 1
+    # ... and the MCP tool handlers on the same 1- and 2-line hostile ledgers (DSL text and JSON array input)
+    from . import symx as _symx
+    if _symx.MCP_OK:
+        for s0 in list(sks):
+            if s0["opts"].get("variant") == "panic":
+                sks.append(dict(s0, id=f"g{i}", opts=dict(s0["opts"], mcp=1))); i += 1
     n3 = 3 if tier == "quick" else 4
     for l in sk.bs_family(3, n3, [0, 30], need_sell=True):
         sks.append(mk(i, "q", l, variant="panic", mode="QZ", wit=WIT)); i += 1
@@ -736,7 +742,7 @@ SPECS.update({
                     "validator: one transaction of each kind and all pairs (7 x 4), every numeric field an unconstrained real (any sign, zero); panic freedom: every B/S ledger with 1..3 lines on {0,1,30} and 1..2 trade lines plus one event line, every numeric field unconstrained in sign with magnitude <= 1e9; 'huge' family: 1..2 lines, magnitudes unbounded with the 2^96 overflow condition of the decimal type modelled",
                     "as quick with 1..4 lines")),
                 assumptions=["a feasible zero divisor and (huge family) a result reaching 2^96 are modelled as the panics the real rust_decimal raises; other arithmetic is exact"],
-                outside=["arbitrary byte strings through the pest parser", "CLI exit status / stdout / --output / default-PDF overwrite (process and file-system effects)", "hangs", "MCP"]),
+                outside=["arbitrary byte strings through the pest parser", "CLI exit status / stdout / --output / default-PDF overwrite (process and file-system effects)", "hangs", "MCP transport / routing / concurrency (the tool handlers themselves are executed on the 1- and 2-line hostile ledgers)"]),
     "C17": dict(id="C17", families=fam_c17, entry_points=["serde Serialize for TaxReport / TaxYearSummary / Disposal / Match / Section104Holding (decimal_money)", "cgt_formatter_plain::format (format_disposal)", "cgt_format::{format_gbp,format_decimal_trimmed,format_price,format_date,format_tax_year,round_gbp}", "cgt_core::calculator::calculate"],
                 bounds=bounds_rel((
                     "every B/S ledger of one security with 2..3 lines (<= 1 disposal day for 3 lines) on {0,30} from 2024-01-10 and on {0,1,30,31} from 2024-03-07 (two tax years), 2 trade lines plus one DIVIDEND / SPLIT / CAPRETURN line; all numeric fields symbolic, so half-penny midpoints and negative results are reachable; every monetary token of the JSON and of the plain text mapped back to its term; the same ledgers with fractional concrete quantities (6 decimals); the MCP tools calculate_report / explain_matching on the <= 3-line ledgers fed as JSON array and as DSL text (DSL variant: fees and tax assumed non-zero)",
